@@ -598,6 +598,10 @@ func (g *goProg) binop(a *AbsState, v *ssa.BinOp) []*AbsState {
 		if nonneg(x) {
 			a.st.le(r.Neg())
 			a.st.leq(r, x)
+			// x &^ m with a non-negative constant mask clears at most m: x - r <= m
+			if y.isConst() && y.k.Sign() >= 0 {
+				a.st.leq(x.Sub(r), linK(y.k))
+			}
 		}
 		a.vals[k] = r
 	default:
